@@ -682,8 +682,7 @@ class History:
         j["targets"] = targets
         binding = BindingConfig(targets=targets, filters=self._filters(j["bi"]))
         job = Job(j["name"], 0, {k: Token(v) for k, v in (j["inputs"] or {}).items()}, None, None, None)
-        if j["notify"] is not None and not j["notify"].done():
-            await j["notify"]
+        await self.await_previous_notify(j)
         j["survivors"] = self.ref_survivors(j["bi"], j["inputs"])
         if not j["survivors"]:
             # no target survives the reference filter chain: the documented outcome is the filter's exception
@@ -733,11 +732,15 @@ class History:
         if act:
             await self.notify(act[pick % len(act)], "RECOVERY")
 
+    async def await_previous_notify(self, j: dict):
+        if j["notify"] is not None and not j["notify"].done():
+            await asyncio.wait([j["notify"]])
+        self.check_notify_results()  # an exception of the previous call is judged there, not re-raised raw
+
     async def notify(self, j: dict, status: str):
         from streamflow.core.workflow import Status
 
-        if j["notify"] is not None and not j["notify"].done():
-            await j["notify"]  # one caller per job: its notifications are sequential
+        await self.await_previous_notify(j)  # one caller per job: its notifications are sequential
         prev = j["status"]
         self.stats["notifies"] += 1
         if status == prev:
@@ -1173,16 +1176,16 @@ def history_case(filters=False, allow_stack=True, max_ops=40):
 _HWLOC = {"cores": 8, "mem": 8, "root": 8, "data": 8}
 EXH_CONFIGS = [
     ("slots=1", {"deps": [{"kind": "slots", "data": False, "locs": [{"slots": 1}], "stack": None}],
-                 "bindings": [{"targets": [[0, 1, None]]}], "reqs": [None, None], "predeclare": True}, True),
+                 "bindings": [{"targets": [[0, 1, None]]}], "reqs": [None, None], "predeclare": True}, True, False),
     ("hardware, jobs exclude each other", {
         "deps": [{"kind": "hw", "data": True, "locs": [_HWLOC], "stack": None}], "bindings": [{"targets": [[0, 1, None]]}],
         "reqs": [{"cores": 6, "mem": 2, "entries": {"__outdir__": [1, 3]}}, {"cores": 4, "mem": 2, "entries": {"__outdir__": [0, 2]}}],
-        "predeclare": True}, False),
+        "predeclare": True}, False, False),
     ("hardware, jobs fit together until retained usage fills the mount", {
         "deps": [{"kind": "hw", "data": True, "locs": [_HWLOC], "stack": None}], "bindings": [{"targets": [[0, 1, None]]}],
         "reqs": [{"cores": 3, "mem": 4, "entries": {"__outdir__": [1, 3]}}, {"cores": 4, "mem": 4, "entries": {"__outdir__": [1, 3], "__tmpdir__": [0, 1]}}],
-        "predeclare": False}, False),
-]
+        "predeclare": False}, False, True),
+]  # (name, world, jobs are symmetric, both jobs are granted when scheduled back to back)
 
 
 class ExplicitHistory(History):
@@ -1220,15 +1223,24 @@ class ExplicitHistory(History):
 
 
 def exhaustive_blocks(tier: str):
-    """Blocks of the enumeration: (configuration, the first two operations)."""
+    """Blocks of the enumeration: (configuration, the first three operations). The three-operation
+    prefixes are enumerated statically from the protocol (the interpreter re-checks that each is valid);
+    together they cover every history, shorter ones as prefixes."""
     depth = 5 if tier == "quick" else 6
-    for ci, (_, _, symmetric) in enumerate(EXH_CONFIGS):
+
+    def after(status):
+        return sorted(set(ALLOWED[status]))
+
+    for ci, (_, _, symmetric, together) in enumerate(EXH_CONFIGS):
         firsts = [["S", 0]] if symmetric else [["S", 0], ["S", 1]]
         for f in firsts:
-            other = 1 - f[1]
-            seconds = [["S", other]] + [["N", f[1], s] for s in sorted(set(ALLOWED["FIREABLE"]))]
-            for s2 in seconds:
-                yield {"config": ci, "prefix": [f, s2], "depth": depth}
+            a, b = f[1], 1 - f[1]
+            thirds = [["N", a, s] for s in after("FIREABLE")] + ([["N", b, s] for s in after("FIREABLE")] if together else [])
+            for t in thirds:
+                yield {"config": ci, "prefix": [f, ["S", b], t], "depth": depth}
+            for st_ in after("FIREABLE"):
+                for t in [["S", b]] + [["N", a, s2] for s2 in after(st_)]:
+                    yield {"config": ci, "prefix": [f, ["N", a, st_], t], "depth": depth}
 
 
 EXH_NONTRIVIAL = {
@@ -1239,7 +1251,7 @@ EXH_NONTRIVIAL = {
 
 
 async def run_exhaustive_block(case: dict, oracle: str, rec) -> None:
-    name, desc, symmetric = EXH_CONFIGS[case["config"]]
+    name, desc, symmetric, _ = EXH_CONFIGS[case["config"]]
     depth = case["depth"]
     stack = [[list(o) for o in case["prefix"]]]
     leaves = waited = 0
